@@ -258,6 +258,22 @@ def membership_quorum(ctx, seed):
     return {"viol": viol, "cut": ok, "callbacks": res, "stages": stages}
 
 
+def stale_acks_after_reelection(ctx, seed):
+    """A node that leads a second time and is then cut off from the majority must not acknowledge anything on the
+    strength of what followers confirmed in its FIRST term of office (schedule of corr.core_directed:
+    5 voters, A leads terms 1 and 3; in term 3 only D answers).  C20: no SUCCESS while cut off from the majority."""
+    from harness.corr import core_directed
+    sim, v, note = core_directed.stale_match_reelection(ctx.repo, seed)
+    viol = []
+    subs = {ev[4]: ev[2] for ev in sim.trace if ev[0] == "submit"}
+    for (node, cid, res, err) in sim.callbacks:
+        if subs.get(cid) == "from-A" and err == 0:
+            viol.append({"signature": "fallback:success-while-cut-off",
+                         "what": "node a, leader for the second time and reaching only 1 of 4 other voters in that term, reported SUCCESS "
+                                 "(result %r) for a command submitted then" % (res,)})
+    return {"viol": viol, "cut": note is None, "note": note}
+
+
 def params(ctx):
     rng = ctx.rng("c20_isolation")
     out = []
@@ -321,9 +337,22 @@ def run(ctx):
                 v["_k"] = v["signature"] + ":membership"
                 v["replay"] = {"membership_quorum": sd}
                 viols.append(v)
+    cov["stale_acks_after_reelection"] = 0
+    for sd in range(ctx.seed, ctx.seed + 2):
+        r = stale_acks_after_reelection(ctx, sd)
+        done += 1
+        if r["cut"]:
+            cov["stale_acks_after_reelection"] += 1
+        for v in r["viol"]:
+            if "reelect" not in [x.get("_k") for x in viols]:
+                v["_k"] = "reelect"
+                v["replay"] = {"stale_acks_after_reelection": sd}
+                viols.append(v)
     res = {"cases": done, "distinct": len(distinct), "coverage": cov, "samples": ps[:2], "disagreements": [],
            "violations": viols[:5], "wall_s": round(time.time() - t0, 2)}
-    if cov["membership_quorum"] == 0:
+    if cov["stale_acks_after_reelection"] == 0:
+        res["inconclusive"] = "the re-election schedule did not reach its point"
+    elif cov["membership_quorum"] == 0:
         res["inconclusive"] = "remove / re-add of a voter did not commit in any run"
     elif cov["scenarios_cut"] < 10 or cov["stepdowns"] < 10 or len(cov["by_size"]) < 4:
         res["inconclusive"] = "too few isolation scenarios executed: %r" % ({k: cov[k] for k in ("scenarios_cut", "stepdowns", "by_size")},)
@@ -331,6 +360,9 @@ def run(ctx):
 
 
 def replay(ctx, violation):
+    if "stale_acks_after_reelection" in violation.get("replay", {}):
+        r = stale_acks_after_reelection(ctx, violation["replay"]["stale_acks_after_reelection"])
+        return {"violated": bool(r["viol"]), "violations": r["viol"][:5]}
     if "membership_quorum" in violation.get("replay", {}):
         r = membership_quorum(ctx, violation["replay"]["membership_quorum"])
         return {"violated": bool(r["viol"]), "violations": r["viol"][:5], "callbacks": r.get("callbacks")}
